@@ -471,10 +471,11 @@ class Machine:
             for a in args:
                 if type(a) in (list, dict):
                     self._pending_retained.append((a, "declared_" + type(a).__name__, "%s.a" % op["out"], snap(a)))
+            kw = {kk: self.arg(a) for kk, a in (op.get("kw") or {}).items()}     # keyword form (refused today)
             if name == "__call__":
-                res = s(*args)
+                res = s(*args, **kw)
             else:
-                res = getattr(s, name)(*args)
+                res = getattr(s, name)(*args, **kw)
             e = self.add_schema(op["out"], res, "refine:" + name)
             return ("ok", e.baseline)
         if k == "combine":
@@ -543,7 +544,10 @@ class Machine:
             sched = Schedule.from_json(op["schedule"])
             P.world.begin(sched, derive("c07", sched.seed))
             g = P.fake(s) if op["how"] == "fake" else ~s
-            return ("ok", canon(g))
+            out = ("ok", canon(g))
+            from .p_c17 import scribble
+            scribble(g)        # the caller owns what fake() returned; no schema and no later value may show the edits
+            return out
         if k == "print":
             s = self.sch(op["s"])
             return ("ok", repr(s) if op["how"] == "repr" else P.represent(s))
@@ -870,9 +874,14 @@ class OpGen:
             return {"ref": r.choice(list(self.m.values))}
         return {"new": enc(self.value_for(e))}
 
+    queue = ()
+
     def next(self):
         r = self.r
         m = self.m
+        if self.queue:
+            op, self.queue = self.queue[0], self.queue[1:]
+            return op
         names = list(self.weights)
         if not m.schemas:
             kind = "declare"
@@ -953,7 +962,15 @@ class OpGen:
                 args.append({"$nil": 1})
             else:
                 args.append(enc(copy.deepcopy(r.choice(ARG_POOL))))
-        return {"op": "refine", "s": sid, "call": [name] + args, "out": self.new_id("s")}
+        op = {"op": "refine", "s": sid, "call": [name] + args, "out": self.new_id("s")}
+        if r.random() < 0.08:
+            # keyword arguments beside (or instead of) the positional ones: keys as keywords for a dict,
+            # value= / min= ... elsewhere
+            kk = r.choice(("role", "name", "value", "min", "max", "len", "key"))
+            op["kw"] = {kk: ({"$schema": self.pick_sid()} if r.random() < 0.6 else enc(r.choice((1, "x", None))))}
+            if r.random() < 0.3:
+                op["call"] = [name]
+        return op
 
     def _fresh_refinement(self, sid, e, kind):
         """A refinement that is still *allowed* on this schema (so that it usually succeeds)."""
@@ -1053,6 +1070,16 @@ class OpGen:
         r = self.r
         cfg = S.G.Cfg(r, depth=r.choice((1, 2)), budget=r.choice((64, 256)), p_neg=0.1, size=r.choice((1, 2)),
                       max_repeat=32, p_unsup=r.choice((0.0, 0.0, 0.4)))
+        if r.random() < 0.12:
+            # conditionals on an optional group (unsupported today: fake() raises): whatever a generator
+            # remembers about groups between two generate() calls shows in the histories that follow
+            pat = r.choice(("(<)?[a-c]{2}(?(1)>)", "(?P<g1><)?y(?(g1)>|!)", "(a)?(b)?(?(2)c|d)"))
+            out = self.new_id("s")
+            # ... and is generated from right away, under two draw schedules (group drawn / left out)
+            self.queue = tuple({"op": "fake", "s": out, "how": "fake",
+                                "schedule": {"policy": pol, "seed": r.getrandbits(32), "p": 0.3, "overrides": {}}} for pol in ("lo", "hi"))
+            return {"op": "declare", "spec": {"t": "str", "regex": {"pattern": pat, "ast": {"k": "pat", "pre": None, "post": None, "body": {"k": "seq", "items": [{"k": "unsup", "text": pat}]}}}, "order": ["regex"]},
+                    "out": out}
         for _ in range(12):
             ast = S.G.gen_pattern(cfg)
             if r.random() < 0.2:
@@ -1302,8 +1329,13 @@ class Prop(BaseProp):
         m, v, op = self.run_pass(case)
         if v is not None or not case.get("rerun", True):
             return m, v, op
-        m2, v2, op2 = self.run_pass(case)
+        # the second pass also runs in a shifted ambient state (another local time zone, a coarse decimal
+        # context with traps): settings an application may have changed and no d42 result may depend on
+        from .world import ambient_shift
+        with ambient_shift():
+            m2, v2, op2 = self.run_pass(case)
         self.probes["history_rerun_in_same_process"] += 1
+        self.probes["fault:ambient_shift(tz,decimal)"] += 1
         if v2 is not None:
             v2.detail = "only in the second pass over the same history in one interpreter: " + v2.detail
             return m2, v2, op2
@@ -1375,8 +1407,33 @@ class Prop(BaseProp):
         # (messages quote the refused value and Python prints equal sets in hash order: every way a set can
         # enter a history -- values, a set-typed alphabet -- makes it hs_sensitive above)
         d_hs = d
+        # rare ingredients of this history (the parent re-runs a sample of histories alone in new
+        # interpreters, rarest tags first)
+        tags = set()
+        if "(?(" in text:
+            tags.add("regex_conditional")
+        if '"k": "unsup"' in text:
+            tags.add("regex_unsupported")
+        if "(?i" in text:
+            tags.add("regex_inline_flag")
+        if '"kw"' in text:
+            tags.add("keyword_arguments")
+        if "$tuple" in text or "$set" in text or "$frozenset" in text:
+            tags.add("odd_container_value")
+        if "$defaultdict" in text or "$ordereddict" in text:
+            tags.add("dict_subclass_value")
+        cond = set()
+        for o, oc in zip(m.oplog, m.outcomes):
+            if o["op"] == "declare" and "(?(" in _json.dumps(o.get("spec"), default=str):
+                cond.add(o["out"])
+            if o["op"] == "fake" and o.get("s") in cond:
+                tags.add("faked_regex_conditional:" + oc[0])
+            if oc[0] == "raise" and o["op"] in ("fake", "substitute", "from_native", "validate"):
+                tags.add("raised_in:" + o["op"])
+            if o.get("hook"):
+                tags.add("hook:" + o["hook"]["action"])
         return {"executions": max(1, len(m.oplog)), "violations": violations, "keys": keys,
-                "digest": d, "digest_hs": None if hs_sensitive else d_hs, "sample": sample}
+                "digest": d, "digest_hs": None if hs_sensitive else d_hs, "sample": sample, "tags": sorted(tags)}
 
     # ------------------------------------------------------------ shrink / replay
     def check_single(self, case, schedule_json, sig_id, kf="__any__"):
